@@ -377,11 +377,15 @@ def _disambiguate_matching(rain_intervals, jump_intervals, result):
             result[0][q][0] != result[0][r][0] and result[1][q][0] != result[1][r][0])))
     # C02: no overlapping storm and rise, not matched to each other, such that the storm is unmatched
     # or would obtain a strictly closer duration and the rise is unmatched or a strictly closer start.
-    # NOT discharged deductively.  Proved above as invariants / cuts: every candidate list is sorted by duration gap
-    # (best last), every preference value of a listed storm is -|start offset| (loop 2), every matched pair is a
-    # listed pair and is read back with its tabulated gap.  With find_stable_matching's stability these give the clause on paper; the combination
-    # under the output quantifiers stayed undecided in z3 and cvc5 within any budget tried, so the clause is checked by
-    # the bounded native run on all small many-to-many relations instead
+    # NOT discharged deductively at this call site.  Lemma blocking_translation (contracts/lemmas.py, proved on its
+    # own) derives exactly this clause from: candidate lists sorted by duration gap with the best last, preference =
+    # -|start offset|, every candidate pair on its storm's list, find_stable_matching's postconditions, and the output
+    # being the matching read back.  Of these premises the sortedness, the preference values, "matched pairs are listed
+    # pairs", the tabulated gaps and find_stable_matching's postconditions are proved here as invariants / cuts; wiring
+    # all of them to the lemma was done once (every premise discharged) but two of the premises -- every candidate pair
+    # is on its storm's list after sorting, and the read-back enumeration -- needed minutes of solver time and flipped
+    # to "undecided" under load, so the application is not part of the check and the clause is evaluated by the bounded
+    # native run on all small many-to-many relations instead
     checked_natively(forall(0, len(rain_intervals), lambda p:
             exists(0, len(result[0]), lambda q: result[0][q] == rain_intervals[p] and result[1][q] == jump_intervals[p])
             or not (forall(0, len(result[0]), lambda q: implies(
